@@ -84,3 +84,107 @@ pub fn run_sched(input: &[u8], from: Option<F>, to: F, pol: ReadPolicy, choices:
 pub fn slice(input: &[u8], from: Option<F>, to: F) -> Outcome {
 	run_slice(input, from, to)
 }
+
+/// Reads xt's output in a streaming target format with the harness's own reader and returns the
+/// canonical dumps of the documents (framing is checked too).
+pub fn read_output_dumps(to: F, out: &[u8]) -> Result<Vec<String>, String> {
+	Ok(read_output_values(to, out)?.iter().map(crate::model::V::dump).collect())
+}
+
+pub fn read_output_values(to: F, out: &[u8]) -> Result<Vec<crate::model::V>, String> {
+	let docs = match to {
+		F::Json => crate::model::read_json_lines(out)?,
+		F::Msgpack => crate::model::read_msgpack_stream(out)?,
+		F::Yaml => crate::yamlread::read_xt_yaml_output(out)?,
+		F::Toml => return Err("TOML is read out of process".into()),
+	};
+	Ok(docs)
+}
+
+/// Classes (one per distinct root cause) and a short description of how `got` differs from `want`.
+pub fn diff_classes(got: &[crate::model::V], want: &[crate::model::V]) -> Vec<(String, String)> {
+	if got.len() != want.len() {
+		return vec![("document-count-differs".into(), format!("{} documents, expected {}", got.len(), want.len()))];
+	}
+	let mut leaves = vec![];
+	for (i, (g, w)) in got.iter().zip(want.iter()).enumerate() {
+		crate::model::diff_leaves(g, w, &format!("doc{i}"), &mut leaves);
+	}
+	let mut out: Vec<(String, String)> = vec![];
+	for (path, g, w) in leaves {
+		let c = crate::model::diff_class(&g, &w);
+		if !out.iter().any(|(k, _)| *k == c) {
+			let (gd, wd) = (g.dump(), w.dump());
+			out.push((c, format!("at {path}: got {} want {}", &gd[..gd.len().min(120)], &wd[..wd.len().min(120)])));
+		}
+	}
+	out
+}
+
+#[derive(Clone, Copy, Debug, PartialEq, Eq, Hash)]
+pub enum Mode {
+	Slice,
+	ReaderAll,
+	Reader1,
+	Reader3,
+}
+
+impl Mode {
+	pub const ALL: [Mode; 4] = [Mode::Slice, Mode::ReaderAll, Mode::Reader1, Mode::Reader3];
+	pub fn name(self) -> &'static str {
+		match self {
+			Mode::Slice => "slice",
+			Mode::ReaderAll => "reader-all",
+			Mode::Reader1 => "reader-1",
+			Mode::Reader3 => "reader-3",
+		}
+	}
+	pub fn parse(s: &str) -> Mode {
+		match s {
+			"slice" => Mode::Slice,
+			"reader-1" => Mode::Reader1,
+			"reader-3" => Mode::Reader3,
+			_ => Mode::ReaderAll,
+		}
+	}
+}
+
+pub fn run_mode(input: &[u8], from: Option<F>, to: F, mode: Mode) -> Outcome {
+	match mode {
+		Mode::Slice => run_slice(input, from, to),
+		Mode::ReaderAll => run_reader(crate::run::ChunkReader::new(input, 0), from, to),
+		Mode::Reader1 => run_reader(crate::run::ChunkReader::new(input, 1), from, to),
+		Mode::Reader3 => run_reader(crate::run::ChunkReader::new(input, 3), from, to),
+	}
+}
+
+pub fn model_case(input: &[u8], from: Option<F>, to: F, mode: Mode, expected: &[String]) -> Value {
+	json!({
+		"kind": "model", "input_hex": hex(input), "input_text": crate::util::show(input), "from": fname(from),
+		"to": to.name(), "mode": mode.name(), "expected_dumps": expected,
+	})
+}
+
+/// Replays a model case for a streaming target: Some(detail) when the output does not read back as expected.
+pub fn replay_model(case: &Value) -> Option<String> {
+	let input = unhex(case["input_hex"].as_str().unwrap());
+	let from = F::parse(case["from"].as_str().unwrap());
+	let to = F::parse(case["to"].as_str().unwrap()).unwrap();
+	let mode = Mode::parse(case["mode"].as_str().unwrap());
+	let expected: Vec<String> = case["expected_dumps"].as_array().unwrap().iter().map(|x| x.as_str().unwrap().to_string()).collect();
+	let o = run_mode(&input, from, to, mode);
+	if !o.ok {
+		return Some(format!("translation failed: {}", o.brief()));
+	}
+	if to == F::Toml {
+		let mut b = crate::tomlcheck::TomlBatch::default();
+		b.push(expected.first().cloned(), o.out.clone(), String::new(), Value::Null);
+		let (_, bad) = b.run("replay");
+		return bad.first().map(|(_, r)| format!("TOML output {}: {r}", crate::util::show(&o.out)));
+	}
+	match read_output_dumps(to, &o.out) {
+		Err(e) => Some(format!("output {} unreadable: {e}", crate::util::show(&o.out))),
+		Ok(d) if d != expected => Some(format!("output {} reads as {:?}, expected {:?}", crate::util::show(&o.out), d, expected)),
+		Ok(_) => None,
+	}
+}
